@@ -369,7 +369,7 @@ func (r *peerRig) checkBooks(o *c18Oracle) {
 		o.fail("more admitted peers than MaxPeers", fmt.Sprint("<= ", config.MaxPeers), fmt.Sprint(s.Count), "c18-total-limit-exceeded")
 	}
 	for ip, v := range s.ConnectionCount {
-		if v > config.MaxPeersPerIP || v < 0 {
+		if v > config.MaxPeersPerIP || (v < 0 && r.valid) {
 			o.fail("connectionCount outside 0..MaxPeersPerIP", fmt.Sprintf("0..%d", config.MaxPeersPerIP), fmt.Sprintf("%s:%d", ip, v), "c18-perhost-counter-out-of-range")
 		}
 	}
@@ -502,6 +502,12 @@ func (r *peerRig) run(c *Ctx, ops []string, o *c18Oracle) ([]peerStepOut, error)
 			if p == nil {
 				return out, fmt.Errorf("done of unknown handle in %q", op)
 			}
+			// assumption of the theorems: the id names this peer object only
+			for _, q := range r.peers {
+				if q != p && q.admitted && q.id == p.id {
+					r.valid = false
+				}
+			}
 			p.sp.Disconnect() // production: the done message follows the disconnection
 			p2p.VerifDonePeer(r.srv, r.st, p.sp)
 			p.admitted = false
@@ -549,7 +555,7 @@ type peerHistory struct {
 }
 
 func genPeerHistory(rng *rand.Rand, n int, style string) peerHistory {
-	h := peerHistory{name: style, nhosts: 4, ngroups: 3}
+	h := peerHistory{name: style, nhosts: 5, ngroups: 2}
 	if style == "wide" {
 		h.nhosts, h.ngroups = 30, 7
 	}
